@@ -633,13 +633,66 @@ func coord(r *core.Rng, style int) int {
 	}
 }
 
+// genExtent draws an overall extent [lo, lo+q] whose width sits on an
+// arithmetic cliff relative to the number of intervals n: q = W/(k*n) + {-1,0,1}
+// for a machine word limit W and a small factor k. Code that scales offsets by
+// the interval count (packed sort keys, bucket indices, mid-point sums) is
+// right on one side of such a width and overflows on the other.
+func genExtent(r *core.Rng, n int) (lo int, q uint64) {
+	w := core.Pick(r, []uint64{math.MaxUint64, math.MaxInt64, math.MaxUint32, math.MaxInt32})
+	k := uint64(r.Range(1, 4))
+	q = w/(k*uint64(n)) + uint64(r.Range(-1, 1)) // wraps only for w = MaxUint64, k*n = 1, +1: q = 0
+	if q == 0 {
+		q = 1
+	}
+	lo = core.Pick(r, []int{math.MinInt, 0, -1, 1, r.Range(-1000, 1000), int(uint64(math.MaxInt) - q)})
+	if room := uint64(math.MaxInt) - uint64(lo); q > room || q > math.MaxInt && lo > 0 {
+		lo = math.MinInt
+	}
+	return lo, q
+}
+
 func genRegionsCase(r *core.Rng, gran string) *RegionsCase {
 	rc := &RegionsCase{Gran: gran}
 	n := r.Range(0, 12)
 	if r.Chance(0.3) {
 		n = r.Range(0, 4)
 	}
-	style := core.Pick(r, []int{0, 0, 1, 1, 2, 3})
+	style := core.Pick(r, []int{0, 0, 1, 1, 2, 3, 4})
+	var exLo int
+	var exQ uint64
+	if style == 4 {
+		if n == 0 {
+			n = r.Range(1, 12)
+		}
+		exLo, exQ = genExtent(r, n)
+	}
+	coord := func(r *core.Rng, style int) int {
+		if style != 4 {
+			return coord(r, style)
+		}
+		hi := int(uint64(exLo) + exQ)
+		small := uint64(r.Range(0, 3))
+		if small > exQ {
+			small = exQ
+		}
+		switch r.Intn(6) {
+		case 0, 1:
+			return exLo
+		case 2, 3:
+			return hi
+		case 4:
+			if r.Bool() {
+				return int(uint64(exLo) + small)
+			}
+			return int(uint64(hi) - small)
+		default:
+			if exQ == math.MaxUint64 {
+				return int(r.Uint64())
+			}
+			return int(uint64(exLo) + r.Uint64()%(exQ+1))
+		}
+	}
 	big := r.Chance(0.06)
 	if big { // many intervals piled on the same positions (beyond 16/32/64-element thresholds)
 		n = core.Pick(r, []int{17, 33, 40, 65, 70, 130})
